@@ -80,3 +80,25 @@ Definition ex3_shdrs : list Z :=
 Definition ex3_body := ex3_phdrs ++ encode_dyns true true ex3_dyn ++ ex_strtab ++ ex3_syms ++ ex3_hash ++ ex3_shdrs.
 Definition ex3_img := ex3_ehdr 334 4 ++ ex3_body.
 Definition ex3_img' := ex3_ehdr 0 0 ++ ex3_body.
+
+(* a fourth image: PT_DYNAMIC at one offset, a .dynamic section holding ANOTHER array, linked to ANOTHER
+   string table with other strings at the same indices, at a different offset *)
+Definition ex4_dyn : list dent :=
+  [(DT_NEEDED, 1); (DT_SONAME, 6); (DT_STRTAB, 0x1000 + 256); (DT_STRSZ, 10); (DT_NULL, 0)].
+Definition ex4_strtab2 : list Z := [0; 76; 73; 66; 67; 0; 70; 79; 79; 0].     (* \0LIBC\0FOO\0 *)
+Definition ex4_dyn2 : list dent := [(DT_NEEDED, 1); (DT_STRTAB, 0x1000 + 266); (DT_STRSZ, 10); (DT_NULL, 0)].
+Definition ex4_ehdr (shoff shnum : Z) : list Z :=
+  encode_layout (spec_Elf_Ehdr true true)
+    [VB [127; 69; 76; 70]; VZ 2; VZ 1; VZ 1; VZ 0; VZ 0; VB [0;0;0;0;0;0;0]; VZ 3; VZ 62; VZ 1; VZ 0;
+     VZ 64; VZ shoff; VZ 0; VZ 64; VZ 56; VZ 2; VZ 64; VZ shnum; VZ 0].
+Definition ex4_phdrs : list Z :=
+  encode_layout (spec_Elf_Phdr true true) [VZ 1; VZ 5; VZ 0; VZ 0x1000; VZ 0x1000; VZ 532; VZ 532; VZ 4096] ++
+  encode_layout (spec_Elf_Phdr true true) [VZ 2; VZ 6; VZ 176; VZ (0x1000 + 176); VZ (0x1000 + 176); VZ 80; VZ 80; VZ 8].
+Definition ex4_shdrs : list Z :=
+  encode_layout (spec_Elf_Shdr true true) [VZ 0; VZ 0; VZ 0; VZ 0; VZ 0; VZ 0; VZ 0; VZ 0; VZ 0; VZ 0] ++
+  encode_layout (spec_Elf_Shdr true true) [VZ 1; VZ 6; VZ 3; VZ (0x1000 + 276); VZ 276; VZ 64; VZ 2; VZ 0; VZ 8; VZ 16] ++
+  encode_layout (spec_Elf_Shdr true true) [VZ 10; VZ 3; VZ 2; VZ (0x1000 + 266); VZ 266; VZ 10; VZ 0; VZ 0; VZ 1; VZ 0].
+Definition ex4_body := ex4_phdrs ++ encode_dyns true true ex4_dyn ++ ex_strtab ++ ex4_strtab2 ++
+                       encode_dyns true true ex4_dyn2 ++ ex4_shdrs.
+Definition ex4_img := ex4_ehdr 340 3 ++ ex4_body.
+Definition ex4_img' := ex4_ehdr 0 0 ++ ex4_body.
